@@ -213,10 +213,19 @@ def _snap_assign(ctx: Ctx, f: FunctionInfo) -> List[Node]:
 def r1(ctx: Ctx) -> None:
     ctx.rule("C15.R1", "sibling agreement of the snapshot-removal sites: repoint(before, kept) with the pre-removal list, "
              "snapshot_log filtered by kept ids, current snapshot never dropped", 9)
+    def _site(f_: FunctionInfo) -> FunctionInfo:
+        """the function that edits the snapshot list: f_ itself, or - when the edit was moved into a callback handed to a
+        shared commit helper (`def remove(new_metadata): ...; self.commit_metadata_update(remove, base)`) - that closure"""
+        if _snap_assign(ctx, f_):
+            return f_
+        inner = [x for x in f_.nested.values() if not isinstance(x.node, ast.Lambda) and _snap_assign(ctx, x)]
+        return inner[0] if len(inner) == 1 else f_
+
+    mk = ctx.fn("transaction.Transaction._make_expire_mutator")
     sites = {
-        "expire mutator": ctx.fn("transaction.Transaction._make_expire_mutator").nested.get("mutator"),
+        "expire mutator": mk.nested.get("mutator") or (_site(mk) if _site(mk) is not mk else None),
         "retention": ctx.fn("snapshot_manager.SnapshotManager._apply_retention"),
-        "delete_snapshot": ctx.fn("snapshot_manager.SnapshotManager.delete_snapshot"),
+        "delete_snapshot": _site(ctx.fn("snapshot_manager.SnapshotManager.delete_snapshot")),
     }
     for role, f in sites.items():
         if f is None:
